@@ -149,24 +149,59 @@ def main():
                 if ts[i:i + len(seq)] == seq:
                     return ts[:i] + ts[i + len(seq):], True
             return ts, False
-        disc = T('''let source_addr = match self.source_addr {
-                None => SourceAddr::discover::<SocketImpl, PlatformImpl>(self.target_addr, self.port_direction, self.interface.as_deref(),)?,
-                Some(addr) => SourceAddr::validate::<SocketImpl>(addr)?,
-            };''')
-        drop = T('if self.drop_privileges { Privilege::drop_privileges()?; }')
-        body, ok1 = remove_seq(list(ri), disc)
-        body, ok2 = remove_seq(body, drop)
+        def statements(ts):
+            """top-level statements of a body: token lists ending with `;` or a closing `}` at depth 0"""
+            out, cur, depth = [], [], 0
+            for k, t in enumerate(ts):
+                cur.append(t)
+                depth += t in '([{'
+                depth -= t in ')]}'
+                if depth == 0 and (t == ';' or (t == '}' and not (k + 1 < len(ts) and ts[k + 1] in (';', '.', '?', 'else', ')')))):
+                    out.append(cur); cur = []
+            if cur:
+                out.append(cur)
+            return out
+
+        def canon(stmts):
+            """a statement `let x = self.make_…_config(..);` (a pure `const fn` of `&self`) may stand anywhere before the
+            first use of `x`: it is moved down to just before that use"""
+            out = list(stmts)
+            for st in list(stmts):
+                if len(st) > 6 and st[0] == 'let' and st[2] == '=' and st[3:5] == ['self', '.'] and re.fullmatch(r'make_[a-z_]+_config', st[5]) and st[-1] == ';' and '?' not in st:
+                    x = st[1]
+                    i = out.index(st)
+                    rest = out[:i] + out[i + 1:]
+                    j = next((k for k in range(i, len(rest)) if x in rest[k]), len(rest))
+                    out = rest[:j] + [st] + rest[j:]
+            return out
+
+        # what the hook leaves out, whatever its spelling: the statement that binds `source_addr` by discovery or
+        # validation, and the statement that drops privileges
+        ri_st = statements(list(ri))
+        is_disc = lambda st: st[:3] == ['let', 'source_addr', '='] and 'discover' in st and 'validate' in st and 'SourceAddr' in st
+        is_drop = lambda st: st[0] == 'if' and 'drop_privileges' in st and 'Privilege' in st and st.count('drop_privileges') == 2
+        ok1, ok2 = sum(map(is_disc, ri_st)) == 1, sum(map(is_drop, ri_st)) == 1
         if not (ok1 and ok2):
             problems.append('run_internal no longer has the source discovery / privilege drop the hook is known to leave out')
+        body = [t for st in canon([st for st in ri_st if not is_disc(st) and not is_drop(st)]) for t in st]
+        vi = [t for st in canon(statements(list(vi))) for t in st]
         body = ['S' if (t == 'SocketImpl' and k >= 2 and body[k - 1] == '<' and body[k - 2] == '::' ) else t for k, t in enumerate(body)]
         # modulo the names of the locals
         if alpha(body) != alpha(vi):
             k = next((i for i, (x, y) in enumerate(zip(alpha(body), alpha(vi))) if x != y), min(len(body), len(vi)))
             problems.append(f'verif_run_internal differs from run_internal (minus discovery and privilege drop) at token {k}: `{" ".join(vi[max(0, k - 10):k + 10])}` vs `{" ".join(body[max(0, k - 10):k + 10])}`')
     checked += 1
-    if not any(b == T('self.run_internal(func).map_err(|err| self.handle_error(err))') for b in tr.get('run_with', [])):
+    # `r.map_err(|e| self.handle_error(e))` and its explicit `match` are the same function of `r`
+    def wraps(call):
+        return [alpha(T(f'{call}.map_err(|err| self.handle_error(err))')),
+                alpha(T(f'match {call} {{ Ok(()) => Ok(()), Err(err) => Err(self.handle_error(err)), }}')),
+                alpha(T(f'match {call} {{ Ok(()) => Ok(()), Err(err) => Err(self.handle_error(err)) }}')),
+                alpha(T(f'match {call} {{ Err(err) => Err(self.handle_error(err)), Ok(()) => Ok(()), }}')),
+                alpha(T(f'{call}.map_err(|err| self.handle_error(err))?; Ok(())')),
+                alpha(T(f'if let Err(err) = {call} {{ return Err(self.handle_error(err)); }} Ok(())'))]
+    if not any(alpha(b) in wraps('self.run_internal(func)') for b in tr.get('run_with', [])):
         problems.append('TracerInner::run_with is no longer `self.run_internal(func).map_err(|err| self.handle_error(err))`')
-    if not any(b == T('self.run_internal(|_| ()).map_err(|err| self.handle_error(err))') for b in tr.get('run', [])):
+    if not any(alpha(b) in wraps('self.run_internal(|_| ())') for b in tr.get('run', [])):
         problems.append('TracerInner::run is no longer `self.run_internal(|_| ()).map_err(|err| self.handle_error(err))`')
     expect(tr, 'verif_run_with', 'self.inner.verif_run_with::<S, F>(source_addr, func)', 0)
     expect(tr, 'verif_run_with', 'self.verif_run_internal::<S, F>(source_addr, func).map_err(|err| self.handle_error(err))', 1)
